@@ -40,7 +40,7 @@ def ub_subjects(tier, derive_use, miri=False):
         decls = []
         for r in ("i8", "u8", "i64", "u128"):
             decls += family_F(r, 2, 2, 2)
-        for r in ("u8", "i16"):
+        for r in ("i8", "u8", "i16", "u64"):
             decls += family_L(r)
         bounds = dict(x1_depth=2, x2_extra=2, x2_cap=6, range_x1_depth=1, range_x2_extra=1)
     else:
